@@ -473,18 +473,29 @@ def checkChecksumSendInterval (s : P2P) (now : Nat) : M P2P := do
           else hist
         return { s with remotes, lastSentChecksumFrame := f, localChecksumHistory := hist }
 
+/-- One pending remote checksum against the local history: a report for a frame below the last
+confirmed frame whose local checksum is on record is checked off (second component), and raises
+`DesyncDetected` (with both checksums) iff the two differ. -/
+def compareOne (lastConfirmed : Frame) (hist : List (Int × Nat)) (peerAddr : Nat) (p : Int × Nat) : Option Event × Bool :=
+  if p.1 ≥ lastConfirmed then (none, false)
+  else match alookup p.1 hist with
+    | none => (none, false)
+    | some lc => ((if lc != p.2 then some (Event.desyncDetected p.1 lc p.2 peerAddr) else none), true)
+
+/-- One endpoint's pending remote checksums, in order: the events raised and the frames checked off. -/
+def comparePending (lastConfirmed : Frame) (hist : List (Int × Nat)) (peerAddr : Nat) (pending : List (Int × Nat)) :
+    List Event × List Int :=
+  pending.foldl (fun acc p =>
+    let r := compareOne lastConfirmed hist peerAddr p
+    (acc.1 ++ r.1.toList, if r.2 then acc.2 ++ [p.1] else acc.2))
+    (([] : List Event), ([] : List Int))
+
 def compareLocalChecksumsAgainstPeers (s : P2P) : P2P :=
   match s.desync with
   | none => s
   | some _ =>
     s.remotes.foldl (fun s (a, e) =>
-      let (evs, checked) := e.pendingChecksums.foldl (fun (evs, checked) (rf, rc) =>
-        if rf ≥ s.sync.lastConfirmedFrame then (evs, checked)
-        else match alookup rf s.localChecksumHistory with
-          | none => (evs, checked)
-          | some lc =>
-            ((if lc != rc then evs ++ [Event.desyncDetected rf lc rc e.peerAddr] else evs), checked ++ [rf]))
-        (([] : List Event), ([] : List Int))
+      let (evs, checked) := comparePending s.sync.lastConfirmedFrame s.localChecksumHistory e.peerAddr e.pendingChecksums
       let e' := { e with pendingChecksums := e.pendingChecksums.filter fun p => !checked.contains p.1 }
       { s with eventQueue := s.eventQueue ++ evs,
                remotes := s.remotes.map fun (a', x) => if a' == a then (a', e') else (a', x) }) s
